@@ -111,6 +111,7 @@ func (m *MIME) match(in []byte, readLimit uint32) *MIME {
 		}
 	}
 
+	verifLeaf(m, ps)
 	return m.cloneHierarchy(ps)
 }
 
@@ -153,6 +154,7 @@ func (m *MIME) cloneHierarchy(ps map[string]string) *MIME {
 }
 
 func (m *MIME) lookup(mime string) *MIME {
+	verifAt("lookup.visit", m, nil, 0, 0, false)
 	for _, n := range append(m.aliases, m.mime) {
 		if n == mime {
 			return m
@@ -179,8 +181,12 @@ func (m *MIME) Extend(detector func(raw []byte, limit uint32) bool, mime, extens
 		parent:    m,
 		aliases:   aliases,
 	}
+	verifWrapNode(c)
 
+	verifAt("ext.built", m, c, 0, 0, false)
 	mu.Lock()
+	verifAt("ext.locked", m, c, 0, 0, false)
 	m.children = append([]*MIME{c}, m.children...)
+	verifAt("ext.published", m, c, 0, 0, false)
 	mu.Unlock()
 }
